@@ -168,8 +168,15 @@ def run_impl(c):
             vals = [build(s) for s in c["pos"]]
             params = {"tuple": tuple, "list": list}[via["container"]](vals) if via["container"] != "scalar" else vals[0]
             before = _snap(params)
-            d = pba.Distribution(via["name"], params)
-            if via["entry"] == "to_pbox":
+            if via["entry"] == "un":
+                import pyuncertainnumber as pun
+                d = None
+                obj = pun.UncertainNumber(essence="pbox", distribution_parameters=[via["name"], params]).construct
+            else:
+                d = pba.Distribution(via["name"], params)
+            if via["entry"] == "un":
+                pass
+            elif via["entry"] == "to_pbox":
                 obj = d.to_pbox()
             elif via["entry"] == "convert":
                 from pyuncertainnumber.pba.operation import convert
@@ -182,6 +189,8 @@ def run_impl(c):
                 OPERAND_CHANGES.append((case_json(c), "Distribution parameters"))
         else:
             args = [build(s) for s in c["pos"]]
+            if c.get("alias"):          # one and the same object handed over for every positional parameter
+                args = [args[0]] * len(args)
             kwargs = {n: build(s) for n, s in c["kw"]}
             before = (_snap(args), _snap(kwargs))
             if c["kind"] == "par":
@@ -399,7 +408,23 @@ def oracle(ctx, c, impl, rng, n_rand):
     if b is None:
         return []
     overlap = False
-    if not valid_box(c, b):
+    edge = None
+    if c["kind"] == "par" and not valid_box(c, b) and sig_ok(c["fam"], len(c["pos"]), [n for n, _ in c["kw"]]) \
+            and all(lo <= hi for _, lo, hi in b):
+        # the box reaches outside the family's domain (a positive parameter <= 0 at some corner)
+        bad = [(n, lo, hi) for n, lo, hi in b if n in FAMS[c["fam"]]["positive"] and lo <= 0]
+        if impl[0] == "err":
+            return []                      # refusing such a box is always right
+        n0, lo0, hi0 = bad[0]
+        corner = {n: (lo if n == n0 else lo) for n, lo, hi in b}
+        if lo0 < 0 or hi0 <= 0:
+            # straddling the boundary, or entirely outside: no p-box of "every member" exists, the call must raise
+            return [("domain", f"parameter box {b} contains points outside the {c['fam']} family's domain (corner {corner}: "
+                               f"{n0} = {lo0!r}) but a p-box was returned instead of an exception")]
+        edge = bad                          # touching the boundary (parameter = 0 at a corner): judge the valid members
+    if edge is not None:
+        pass
+    elif not valid_box(c, b):
         # bespoke uniform with overlapping endpoint intervals: not every point of the box is a distribution, the constructor
         # may refuse it; when it answers, the members with a0 <= b0 are judged like any others
         overlap = (c["kind"] == "uni" and impl[0] == "ok" and b[0][1] <= b[0][2] and b[1][1] <= b[1][2]
@@ -414,7 +439,16 @@ def oracle(ctx, c, impl, rng, n_rand):
     names = [n for n, _, _ in b]
     if c["kind"] == "par":
         fam, k = c["fam"], len(c["pos"])
-        for th in members(rng, b, n_rand):
+        mem = members(rng, b, n_rand)
+        if edge is not None:               # only the members inside the domain; some close to the boundary
+            extra = []
+            for th in list(mem):
+                for n, lo, hi in edge:
+                    j = names.index(n)
+                    for f in (1e-6, 1e-2, 0.5):
+                        extra.append(th[:j] + (lo + (hi - lo) * f,) + th[j + 1:])
+            mem = [th for th in mem + extra if all(th[names.index(n)] > 0 for n, _, _ in edge)]
+        for th in mem:
             pos, kw = th[:k], dict(zip(names[k:], th[k:]))
             qs = sp_ppf(fam, pos, kw)
             sc = float(np.max(np.abs(qs)))
@@ -675,6 +709,47 @@ def gen_cases(ctx):
     for rnd in range(2):
         for fam, pos, kw in (seq if rnd == 0 else list(reversed(seq))):
             cases.append({"kind": "par", "fam": fam, "pos": json.loads(json.dumps(pos)), "kw": json.loads(json.dumps(kw)), "stream": "sequence"})
+    # ---- round 4 streams -------------------------------------------------------------------------------------
+    # domain edges: a positive parameter reaching 0 or below at one corner only (must raise; a returned value is judged),
+    # and valid extreme boxes just inside the domain (must not raise)
+    num4 = lambda x: ["N", x, "int" if isinstance(x, int) else "float"]
+    for fam in fams:
+        order = FAMS[fam]["order"]
+        okv = {"loc": ["L", [4, 5]], "mu": ["L", [0, 1]], "scale": num4(1), "sigma": num4(1), "a": num4(2)}
+        for n in FAMS[fam]["positive"]:
+            for lo, hi in [(0, 1), (-1, 1), (0.0, 2.0), (-1e-17, 1.0), (-2, 3), (0, 0), (-2, -1)]:
+                for fm in (lambda a, b: ["L", [a, b]], lambda a, b: ["T", [a, b]], lambda a, b: ["I", a, b]):
+                    if fm(0, 1)[0] != "L" and (lo, hi) not in [(0, 1), (-1, 1)]:
+                        continue
+                    pos = [fm(lo, hi) if m == n else okv[m] for m in order]
+                    cases.append({"kind": "par", "fam": fam, "pos": pos, "kw": [], "stream": "malformed-domain-edge"})
+            for lo, hi in [(1e-300, 1.0), (5e-324, 1e-300), (1e-12, 1e-9)]:
+                if n == "a" or (n == "sigma" and lo < 1e-12):
+                    lo, hi = max(lo, 1e-3), max(hi, 2e-3)
+                pos = [["L", [lo, hi]] if m == n else okv[m] for m in order]
+                cases.append({"kind": "par", "fam": fam, "pos": pos, "kw": [], "stream": "domain-inside"})
+    for fam in ("exponential", "rayleigh"):
+        for lo, hi in [(0, 2), (-1, 1), (-1e-17, 1.0)]:
+            cases.append({"kind": "par", "fam": fam, "pos": [], "kw": [["scale", ["L", [lo, hi]]]], "stream": "malformed-domain-edge"})
+            cases.append({"kind": "par", "fam": fam, "pos": [["L", [1, 2]]], "kw": [["scale", ["T", [lo, hi]]]], "stream": "malformed-domain-edge"})
+    cases.append({"kind": "par", "fam": "normal", "pos": [num4(5), ["L", [0, 1]]], "kw": [], "stream": "malformed-domain-edge"})
+    cases.append({"kind": "par", "fam": "gamma", "pos": [["L", [0, 2]]], "kw": [], "stream": "malformed-domain-edge"})
+    for lam in [(0, 2), (-1, 1), (-1e-17, 1.0)]:
+        cases.append({"kind": "ebl", "pos": [["L", list(lam)]], "kw": [], "stream": "malformed-domain-edge"})
+    # one and the same operand object for every parameter; the UncertainNumber(essence='pbox', ...) layer
+    for fam in fams:
+        order = FAMS[fam]["order"]
+        for sp in (["L", [1, 2]], ["I", 1.5, 2.5], ["T", [2, 2]], num4(2)):
+            cases.append({"kind": "par", "fam": fam, "pos": [json.loads(json.dumps(sp)) for _ in order], "kw": [],
+                          "stream": "same-operand", "alias": True})
+    un_names = [("normal", "gaussian"), ("normal", "norm")] + [(f, f) for f in fams if f != "normal"]
+    for _ in range(ctx.scale(2, 12)):
+        for fam, name in un_names:
+            c = par_case(rng, fam, "un-layer")
+            c["pos"] = [sp for sp in c["pos"]]
+            if len(c["pos"]) == len(FAMS[fam]["order"]):
+                c["via"] = {"name": name, "container": "tuple", "entry": "un"}
+                cases.append(c)
     # keyword parameters (exponential, rayleigh): witnesses of KF-C09-kw-drops-positional
     for fam in ("exponential", "rayleigh"):
         cases.append({"kind": "par", "fam": fam, "pos": [["L", [1, 2]]], "kw": [["scale", ["L", [1, 2]]]], "stream": "kw"})
@@ -788,7 +863,7 @@ def _js(t):
 
 
 def case_json(c):
-    return {k: c[k] for k in ("kind", "fam", "pos", "kw", "stream", "via", "nomom") if k in c}
+    return {k: c[k] for k in ("kind", "fam", "pos", "kw", "stream", "via", "nomom", "alias") if k in c}
 
 
 def run(ctx: core.Check, cases=None):
@@ -798,7 +873,9 @@ def run(ctx: core.Check, cases=None):
                 "parameters and non-positive scales (error kind only); bespoke uniform (separated / touching / overlapping / inverted "
                 "boxes) and exponential_by_lambda; wide boxes (moments judged with the library's real moment code when derived); thin "
                 "non-degenerate boxes (relative width 1e-9..1e-5, magnitudes 1e-9); extreme constants (1e-20, 2^-60, k_B, 1e18); the "
-                "Distribution(family, tuple|list|scalar).to_pbox()/convert()/+0/-(-d) entry point; sequences binding the same numbers "
+                "Distribution(family, tuple|list|scalar).to_pbox()/convert()/+0/-(-d) entry point; the UncertainNumber(essence='pbox') layer; the "
+                "same operand object for every parameter; boxes reaching outside the family's domain at one corner (touching 0 / straddling: "
+                "must raise, a returned value is judged) and just inside it (1e-300, 5e-324: must not raise); sequences binding the same numbers "
                 "positionally and by keyword in consecutive calls; results kept alive and re-read, cases evaluated twice. A case is non-trivial when it is a distinct (constructor, parameter forms, values) "
                 "description; malformed cases count as trivial.")
     ctx.assumptions = ["scipy ppf/stats values at the corners are computed by the harness with its own family table and sent to the model",
